@@ -4,7 +4,7 @@
    and the metadata setters of kfns.go built from them (SetLabel, SetK8sName/Namespace).
    Definitions only; proofs in ElemsProofs.v.  As in Fns.v every function returns the document afterwards
    (Go mutates through pointers) together with the node the filter returns. *)
-From KV Require Export Yaml.Fns.
+From KV Require Export Yaml.Fns Base.Regex.
 
 Definition is_empty_map (n : node) : bool := match n with Map [] => true | _ => false end.
 
@@ -53,6 +53,22 @@ Section WithOracle.
           end
       | _ => Err
       end.
+
+  (* FieldMatcher{Name, StringRegexValue: pattern}: the expression is only looked at when Name is empty (the node is
+     then a scalar and the expression is SEARCHED in its Value, unanchored); with a Name it is ignored.
+     [compiled] = regexp.Compile(pattern): None when it does not compile. *)
+  Definition field_matcher_regex (name : string) (compiled : option re) (x : node) : res (node * option node) :=
+    if String.eqb name "" then
+      if is_null x then Ok (x, None)
+      else match x with
+           | Scalar _ _ s =>
+               match compiled with
+               | None => Err
+               | Some r => if matches r s then Ok (x, Some x) else Ok (x, None)
+               end
+           | _ => Err
+           end
+    else field_matcher name None None x.
 
   (* Get(name) / MatchField(name, v) / Match(v) *)
   Definition fm_get (name : string) := field_matcher name None None.
